@@ -38,14 +38,20 @@ def _bond_graph(a, bond=0.65):
     return M <= bond
 
 
+BOUNDARY_SEEDS = [0, 0, 1, 2**31 - 1, 2**32 - 1, 2**63 - 1]
+
+
 def seed_strategy(a, rng, allow=("int", "gen", "uniform", "extreme", "undercoord", "interface", "chain")):
     """Draws a seedspec for one CLUSTER operation."""
     n = len(a)
     kind = allow[int(rng.integers(len(allow)))]
-    if kind == "int":
-        return {"kind": "int", "n": int(rng.integers(0, 10**6))}
-    if kind == "gen":
-        return {"kind": "gen", "n": int(rng.integers(0, 10**6))}
+    if kind in ("int", "gen"):
+        # "all seeds": boundary values of the seed argument are over-weighted
+        if rng.random() < 0.25:
+            n_seed = int(BOUNDARY_SEEDS[int(rng.integers(len(BOUNDARY_SEEDS)))])
+        else:
+            n_seed = int(rng.integers(0, 10**6))
+        return {"kind": kind, "n": n_seed}
     then = ["low", "high", "rand"][int(rng.integers(3))]
     r = int(rng.integers(0, 2**31 - 1))
     if kind == "uniform" or n < 3:
